@@ -402,3 +402,61 @@ fn c14_yaml_quote_spec_sanity() {
     assert!(needs_quote(b"1.") && needs_quote(b"1.5E-3") && needs_quote(b"0o17"));
     assert!(!needs_quote(b"a#b") && !needs_quote(b"a:b") && !needs_quote(b"-a") && !needs_quote(b"a-") && !needs_quote(b"a[b"));
 }
+
+// ------------------------------------------------------------------------------------------
+// C14: TOML keys - what the writer emits for a key is a key in TOML's grammar
+// (toml.io v1.1.0 "Keys": a bare key is a NON-EMPTY run of A-Za-z0-9_-; anything else is quoted)
+// ------------------------------------------------------------------------------------------
+struct KeyBuf {
+    b: [u8; 8],
+    n: usize,
+}
+impl core::fmt::Write for KeyBuf {
+    fn write_str(&mut self, s: &str) -> core::fmt::Result {
+        let s = s.as_bytes();
+        let mut i = 0;
+        while i < s.len() {
+            assert!(self.n < 8);
+            self.b[self.n] = s[i];
+            self.n += 1;
+            i += 1;
+        }
+        Ok(())
+    }
+}
+fn toml_key_point(key: &'static [u8]) {
+    let k = core::mem::ManuallyDrop::new(bytes::Bytes::from_static(key));
+    let mut w = KeyBuf { b: [0; 8], n: 0 };
+    let ok = crate::write::toml::verif_write_key(&mut w, &k).is_ok();
+    assert!(ok);
+    let out = &w.b[..w.n];
+    let bare = |c: &u8| c.is_ascii_alphanumeric() || *c == b'_' || *c == b'-';
+    let mut all_bare = true;
+    let mut i = 0;
+    while i < out.len() {
+        all_bare = all_bare && bare(&out[i]);
+        i += 1;
+    }
+    let quoted = out.len() >= 2 && out[0] == b'"' && out[out.len() - 1] == b'"';
+    // what is written is a bare key (non-empty) or a quoted key
+    assert!((!out.is_empty() && all_bare) || quoted);
+    // and it denotes the key: bare keys are written as they are
+    if !out.is_empty() && all_bare {
+        assert!(out.len() == key.len());
+    }
+}
+#[kani::proof]
+#[kani::unwind(10)]
+fn c14_toml_key_empty() {
+    toml_key_point(b"");
+}
+#[kani::proof]
+#[kani::unwind(10)]
+fn c14_toml_key_bare() {
+    toml_key_point(b"a-1");
+}
+#[kani::proof]
+#[kani::unwind(10)]
+fn c14_toml_key_quoted() {
+    toml_key_point(b"a b");
+}
